@@ -108,15 +108,28 @@ def run_pipeline(ctx, bl, sl, bs, B=None, S=None, engine="sync", concrete=False)
     sig_ok = simp(sres.discr == 0)
     st.frames[0]["sig"] = sig
     reader = VStruct("SliceReader", [VSeq(S, I(0), I(sl), "u8")])
-    if engine == "sync":
+    dres = ares = None
+    ready = z3.BoolVal(True)
+    if engine in ("sync", "both"):
         dfn = ctx.fn(ex, "<CopiaSync as Sync>::delta")
         dres = ex.exec_fn(dfn, [VRef("val", val=VOpaque("CopiaSync")), reader, VRef("place", 0, "sig")], st)
-    else:
-        raise Inconclusive("engine %s not encoded" % engine)
-    if dres is None:
-        raise Inconclusive("delta never returns")
-    ex.assumes.append(st.guard)
-    return dict(ex=ex, B=B, S=S, sig=sig, sig_ok=sig_ok, res=dres, st=st, bl=bl, sl=sl, bs=bs, nb=nb)
+        if dres is None:
+            raise Inconclusive("delta never returns")
+    if engine in ("async", "both"):
+        key = ctx.idx.get("AsyncCopiaSync::delta")
+        cfn = ex.find_fn(key + "::{closure#0}") if key else None
+        if cfn is None:
+            raise Inconclusive("no MIR body for the async delta state machine")
+        co = VEnum("Coroutine", I(0), {-1: [VRef("val", val=VOpaque("AsyncCopiaSync")), reader, VRef("place", 0, "sig")]})
+        st.frames[0]["co"] = co
+        poll = ex.exec_fn(cfn, [VStruct("Pin", [VRef("place", 0, "co")]), VOpaque("Context")], st)
+        if poll is None or 0 not in poll.pay:
+            raise Inconclusive("async delta never becomes Ready")
+        ready = simp(poll.discr == 0)
+        ares = poll.pay[0][0]
+    ex.exit_guards.append(st.guard)
+    return dict(ex=ex, B=B, S=S, sig=sig, sig_ok=sig_ok, res=dres if dres is not None else ares, ares=ares, ready=ready,
+                st=st, bl=bl, sl=sl, bs=bs, nb=nb, engine=engine)
 
 
 def delta_view(ctx, P):
@@ -195,6 +208,32 @@ def goals_c01(ctx, P):
     return g, V
 
 
+def goals_engines_agree(ctx, P):
+    """sync and async engines produce the same header and the same op list"""
+    V1 = delta_view(ctx, P)
+    P2 = dict(P)
+    P2["res"] = P["ares"]
+    V2 = delta_view(ctx, P2)
+    g = {"async-ready": P["ready"], "async-ok": V2["ok"]}
+    if not (V1.get("hdr") and V2.get("hdr")):
+        return g
+    conj = [V1["n"] == V2["n"]]
+    for k in ("source_size", "basis_size", "block_size"):
+        conj.append(V1["hdr"][k].t == V2["hdr"][k].t)
+    conj.append(deltamodels.hash_eq_term(P["ex"], V1["hdr"]["checksum"], V2["hdr"]["checksum"]))
+    n = max(len(V1["ops"]), len(V2["ops"]))
+    if len(V1["ops"]) != len(V2["ops"]):
+        conj.append(z3.And(V1["n"] <= min(len(V1["ops"]), len(V2["ops"]))))
+    for a, b in zip(V1["ops"], V2["ops"]):
+        same = z3.And(a["is_copy"] == b["is_copy"],
+                      z3.If(a["is_copy"], z3.And(a["off"] == b["off"], a["len"] == b["len"]),
+                            z3.And(a["lit"].len == b["lit"].len,
+                                   *[z3.Implies(k < a["lit"].len, a["lit"].at(I(k)) == b["lit"].at(I(k))) for k in range(P["sl"])])))
+        conj.append(z3.Implies(a["live"], same))
+    g["engines-produce-identical-deltas"] = z3.And(*conj)
+    return g
+
+
 def goals_c16(ctx, P, V=None):
     V = V or delta_view(ctx, P)
     g = {}
@@ -252,20 +291,34 @@ def native_verdict(case):
 
 
 def pipeline_obligations(ctx, R, prover, pid, bl, sl, bs, which):
-    P = run_pipeline(ctx, bl, sl, bs)
+    engine = {"C01": "sync", "C16": "sync", "C01-async": "async", "C16-async": "async", "C01-agree": "both"}[which]
+    P = run_pipeline(ctx, bl, sl, bs, engine=engine)
     ex = P["ex"]
-    g1, V = goals_c01(ctx, P)
-    goals = g1 if which == "C01" else goals_c16(ctx, P, V)
-    tag = "%s/pipeline[bl=%d,sl=%d,bs=%d]" % (pid, bl, sl, bs)
+    if which == "C01-agree":
+        goals = goals_engines_agree(ctx, P)
+    else:
+        g1, V = goals_c01(ctx, P)
+        goals = g1 if which.startswith("C01") else goals_c16(ctx, P, V)
+        if engine == "async":
+            goals["async-ready"] = P["ready"]
+    tag = "%s/%spipeline[bl=%d,sl=%d,bs=%d]" % (pid, {"sync": "", "async": "async-", "both": "engines-"}[engine], bl, sl, bs)
 
     def witness(name, model, neg):
-        case = model_case(model, P)
+        case = model_case(model, P, "async" if engine == "async" else "sync")
         bad, res = native_verdict(case)
+        if not bad and engine == "both":
+            c2 = dict(case)
+            c2["engine"] = "async"
+            r1 = native.run_cases([case], "dev")[0]
+            r2 = native.run_cases([c2], "dev")[0]
+            if r1.get("ops") != r2.get("ops") or r1.get("source_size") != r2.get("source_size"):
+                bad = {"dev": "sync and async engines disagree: %s vs %s" % (json.dumps(r1.get("ops"))[:120], json.dumps(r2.get("ops"))[:120])}
+                res = {"sync": r1, "async": r2}
         if bad:
             case["observed"] = res
             kind = "roundtrip" if any("reconstruct" in b or "patch" in b or "panic" in b for b in bad.values()) else \
                 ("greedy" if any("literal" in b or "identical" in b for b in bad.values()) else "header")
-            return {"confirmed": True, "replay_path": R.save_replay(tag, case), "key": "%s/sync-delta/%s" % (pid, kind),
+            return {"confirmed": True, "replay_path": R.save_replay(tag, case), "key": "%s/%s-delta/%s" % (pid, engine, kind),
                     "detail": "delta(basis=%s, source=%s, bs=%d): native %s" % (case["basis"], case["source"], bs, bad)}
         return {"confirmed": False,
                 "detail": "native delta satisfies the property on basis=%s source=%s bs=%d (model relies on the abstraction of a leaf or on a std model)"
@@ -283,7 +336,7 @@ def pipeline_obligations(ctx, R, prover, pid, bl, sl, bs, which):
 
 # ------------------------------------------------------------------ translator validation
 
-def validate(ctx, R, seed, count):
+def validate(ctx, R, seed, count, engine="sync"):
     rnd = random.Random(seed)
     cases = []
     # shapes from the repo's own tests (scaled to small block sizes): identical, appended, prepended, modified,
@@ -306,13 +359,17 @@ def validate(ctx, R, seed, count):
         cases.append((basis, source, bs))
     njson, mine = [], []
     for basis, source, bs in cases:
-        P = run_pipeline(ctx, len(basis), len(source), bs, B=lit_bytes(basis), S=lit_bytes(source), concrete=True)
+        P = run_pipeline(ctx, len(basis), len(source), bs, B=lit_bytes(basis), S=lit_bytes(source), concrete=True, engine=engine)
         ex = P["ex"]
         V = delta_view(ctx, P)
         s = z3.Solver()
         s.add(ex.assumes)
+        s.add(ex.exit_guards)
         if s.check() != z3.sat:
-            raise Inconclusive("translator validation (delta): concrete run has no feasible path")
+            s = z3.Solver()
+            s.add(ex.assumes)
+            if s.check() != z3.sat:
+                raise Inconclusive("translator validation (delta): concrete run has no feasible path")
         m = s.model()
         if any(z3.is_true(m.eval(o.formula, model_completion=True)) for o in ex.obligs):
             mine.append("panic")
@@ -328,7 +385,7 @@ def validate(ctx, R, seed, count):
                     ln = model_int(m, o["lit"].len)
                     ops.append({"lit": [model_int(m, o["lit"].at(I(k))) for k in range(ln)]})
             mine.append(ops)
-        njson.append({"fn": "delta", "engine": "sync", "basis": basis, "source": source, "bs": bs})
+        njson.append({"fn": "delta", "engine": engine, "basis": basis, "source": source, "bs": bs})
     nat = native.run_cases(njson, "dev")
     dis = 0
     for c, mn, r in zip(njson, mine, nat):
